@@ -240,7 +240,7 @@ def instances(ctx, spec, profile):
 # ---------------------------------------------------------------- correspondence
 OBSERVERS = {"len", "display", "codes", "reviter", "nth", "get", "windows", "chunks", "winvec", "chain",
              "eq", "eqstr", "cmp", "tousize", "tou8", "intousize", "intoraw", "hasheq", "mapget",
-             "contains", "conv", "all", "kobs", "keq", "khasheq", "kcmp", "kderef", "kasref",
+             "contains", "conv", "all", "arr", "kobs", "keq", "khasheq", "kcmp", "kderef", "kasref",
              "keqseq", "keqstr", "kusize", "kmers", "kmin", "xlate", "xlatei", "xcodon", "ctq", "ctr"}
 EMITS = OBSERVERS | {"parse", "trim", "fromraw", "serde", "kfrom", "kstr", "kfromseq", "kserde"}
 
